@@ -163,7 +163,7 @@ def meta(tier):
                 'empty-image family (5 programs that assemble to no byte at all x configurations x output pre-seeded / absent: the image must exist afterwards); '
                 'wide-address family (address widths 24/32/40/64 x code at 7 addresses around 2^16, 2^24, 2^32, 2^40, 2^48 x every format, where a '
                 'format may be unable to express the address and the failure arises while the outputs are produced); each '
-                'under the output configurations (no pretty print / each of 4 formats / a window / --no-binary with a pretty print) with the output file pre-seeded with '
+                'under the output configurations (no pretty print / each of 4 formats / a window / --no-binary with a pretty print / --no-binary alone / -vvv) with the output file pre-seeded with '
                 'a sentinel (and, for line-level deviations, absent); thorough: every pair of line-level deviations; '
                 'non-trivial = execution that ends in a rejection, or a must-reject deviation; states: n/a',
         'bounds': {'bases': {k: len(v) for k, v in BASES.items()}, 'garble_characters': GARBLE, 'zero_length': ZERO_LEN,
@@ -205,13 +205,15 @@ CONFIGS = [
     {'pretty': None}, {'pretty': 'listing'}, {'pretty': 'hex'}, {'pretty': 'intel_hex'}, {'pretty': 'minhex'},
     {'pretty': None, 'start': 2, 'end': 0x30, 'fill': 0xFF},
     {'pretty': 'hex', 'binary': False},         # --no-binary: only a pretty print is requested
+    {'pretty': 'listing', 'verbose': 3},        # -vvv: everything is logged
+    {'pretty': None, 'binary': False},          # --no-binary and no pretty print: nothing at all is written
 ]
 
 
 def execute(acc, lines, what, must, clause, cfg, preseed=True, isa=None, included=None):
     files = {'main.asm': '\n'.join(lines) + '\n', 'inc.asm': included or INCLUDED}
     case = Case(isa or ISA, files, preseed=preseed, pretty=cfg.get('pretty'), start=cfg.get('start', 0), end=cfg.get('end'),
-                fill=cfg.get('fill', 0), binary=cfg.get('binary', True))
+                fill=cfg.get('fill', 0), binary=cfg.get('binary', True), verbose=cfg.get('verbose', 0))
     out = acc.run(case)
     spec = {'type': 'c14', 'preseed': preseed, 'must_reject': must, 'deviation': what, 'binary': cfg.get('binary', True)}
     msg = judge(spec, [out])
@@ -252,7 +254,7 @@ def shard(acc, tier, idx, n):
             if ctr % n != idx:
                 continue
             kind = what.split(': ', 1)[1]
-            for cfg in (CONFIGS[0], CONFIGS[1], CONFIGS[6]):
+            for cfg in (CONFIGS[0], CONFIGS[1], CONFIGS[6], CONFIGS[7], CONFIGS[8]):
                 execute(acc, new, f'{bname}: {what}', kind, 'must-reject', cfg)
         if not q:
             ll = [d for d in devs if d[0].startswith(('drop line', 'duplicate line', 'insert'))]
@@ -293,7 +295,7 @@ def shard(acc, tier, idx, n):
         ('included file uses a local label of its includer', ['glob1:', '.mine: nop'] + lines, 'inc_lab: nop\n    .2byte .mine\n'),
     ]
     for what, new, inc in cross:
-        for cfg in (CONFIGS[0], CONFIGS[1], CONFIGS[6]):
+        for cfg in (CONFIGS[0], CONFIGS[1], CONFIGS[6], CONFIGS[7], CONFIGS[8]):
             ctr += 1
             if ctr % n != idx:
                 continue
